@@ -86,6 +86,7 @@ BODIES = {
     "NB": {"inputs": ["a", "b", "c"], "defaults": {}, "outputs": ["df"], "sym": {"df": "@inner"}},
     "BK": {"inputs": ["freq4", "k_59", "unit"], "defaults": {"unit": "u"}, "outputs": ["p", "q"],
            "sym": {"p": "p", "q": "q"}},
+    "BD": {"inputs": ["a", "b", "n", "z"], "defaults": {"n": 1, "z": 0}, "outputs": ["o"], "sym": {"o": "g"}},
     "B12": {"inputs": [f"x{i}" for i in range(12)], "defaults": {"x11": "e"}, "outputs": ["o", "o2"],
             "sym": {"o": "w", "o2": "v"}},
 }
@@ -260,7 +261,14 @@ def canon(v):
         cols = [str(c) for c in v.columns]
         return "T{" + "|".join(cols) + ":" + ";".join("|".join(canon(r[c]) for c in cols)
                                                        for r in v.to_dict("records")) + "}"
-    return str(v)
+    return _scalar(v)
+
+
+def _scalar(v):
+    """cells are compared by TYPE and repr, not by `==`: 1, 1.0 and True are three different values"""
+    if isinstance(v, str):
+        return v
+    return f"{type(v).__name__}:{v!r}"
 
 
 def _inner_ref(a, b, c):
@@ -275,7 +283,7 @@ def ref_canon(v):
         return f"{v[0]}(" + ",".join(ref_canon(x) for x in v[1:]) + ")"
     if isinstance(v, list):
         return "[" + ",".join(ref_canon(x) for x in v) + "]"
-    return str(v)
+    return _scalar(v)
 
 
 # ----------------------------------------------------------------------------- generation
@@ -301,6 +309,8 @@ def _colmaps(body, iter_on, zip_on):
         res = [None, {"p": "P"}, {"p": "q", "q": "p"}, {"p": "x", "q": "y"}]
         if bc:
             res.append({"q": bc[-1]})
+    elif body == "BD":
+        res = [None, {"o": "O"}]
     elif body in ("MB", "BK"):
         res = [None, {"p": "P"}, {"p": "q", "q": "p"}]
     elif body == "NB":
@@ -483,6 +493,38 @@ def gen_cases(rng, tier):
             if x not in case["init"]:
                 case["init"][x] = x.upper()
         yield case
+
+    # 5''. broadcast values ==-equal to a default but of another type (1.0 / True for 1, 0.0 / False for 0), other
+    #      numbers, and inputs left at their default — through the instance shortcuts and every other entry point;
+    #      cells are compared by (type, repr)
+    alphabet = {"n": [1, 1.0, True, 2, 0, 0.0, False, "N"], "z": [0, 0.0, False, 1, True, 1.0, -1, "Z"]}
+    for i in range(70 if quick else 700):
+        entry = ("iter", "zip", "for_node", "cls", "wf")[i % 5] if i % 10 < 8 else rng.choice(["iter", "zip"])
+        looped = rng.choice([["a"], ["b"], ["a", "b"], ["b", "a"]])
+        if entry in ("iter", "zip"):
+            roles = tuple(("i" if entry == "iter" else "z") if x in looped else "b" for x in ["a", "b", "n", "z"])
+        else:
+            roles = tuple((rng.choice("iz") if x in looped else "b") for x in ["a", "b", "n", "z"])
+        iter_on = [x for x in looped if roles["abnz".index(x)] == "i"]
+        zip_on = [x for x in looped if roles["abnz".index(x)] == "z"]
+        init = {x: [f"{x}{j}" for j in range(rng.randint(1, 3))] for x in looped}
+        for x in "ab":
+            if x not in looped:
+                init[x] = x.upper()
+        for x in "nz":
+            if rng.random() < 0.8:
+                init[x] = rng.choice(alphabet[x])  # else: left at the default
+        runs = [{"set": {}, "how": "call"}]
+        if entry not in ("iter", "zip") and rng.random() < 0.6:
+            # (a re-run whose only change is to an ==-equal value of another type is a cache HIT by the library's
+            # input comparison — C05's subject, not generated here: the new value differs by `==`)
+            x = rng.choice("nz")
+            cur_x = init.get(x, BODIES["BD"]["defaults"][x])
+            cands = [v for v in alphabet["n"][:7] if not (v == cur_x)]
+            runs.append({"set": {x: rng.choice(cands)}, "how": rng.choice(["call", "setrun"])})
+        yield {"kind": "for", "body": "BD", "iter": iter_on, "zip": zip_on, "df": True if entry in ("iter", "zip")
+               else rng.random() < 0.5, "colmap": rng.choice([None, {"o": "O"}]), "use_cache": True, "entry": entry,
+               "executor": False, "init": init, "runs": runs}
 
     # 5a. sizes beyond one digit: 10, 11, 12, 21, 101 rows (row_10 / item_10 / body_10 sort before row_2 as
     #     strings; 101 reaches three digits), by one long list, by a zip, and by a product; both forms; re-run
@@ -931,6 +973,11 @@ def corpus():
     # past failure (seeded C16-11 = C01-6): the last body's callback parks between its two registrations
     yield {"kind": "fine", "iter": ["a"], "zip": [], "df": True, "init": {"a": ["a0", "a1"], "b": "B", "c": "C"},
            "runs": [{"set": {}}, {"set": {"a": ["x", "y", "z"]}}], "choices": [1, 0, 0, 0, 2, 1, 0, 0, 0, 0, 0, 0]}
+    # past failure (seeded C16-14): the instance shortcut dropped a broadcast value that is ==-equal to its default
+    for style, nval, zval in (("iter", 1.0, False), ("zip", True, 0.0)):
+        yield {"kind": "for", "body": "BD", "iter": ["a"] if style == "iter" else [], "zip": ["a"] if style == "zip" else [],
+               "df": True, "colmap": None, "use_cache": True, "entry": style, "executor": False,
+               "init": {"a": ["a0", "a1"], "b": "B", "n": nval, "z": zval}, "runs": [{"set": {}, "how": "call"}]}
     # pickling: at rest, through a file, mid-run (history continues on the copy), after a failed run
     yield {"kind": "for", "body": "B4", "iter": ["a"], "zip": ["b"], "df": True, "colmap": {"o": "O"}, "use_cache": True,
            "entry": "for_node", "executor": True, "init": {"a": ["a0", "a1"], "b": ["b0", "b1", "b2"], "c": "C"},
@@ -1505,7 +1552,7 @@ def model_input(case, impl=None):
     if case["body"] == "NB":
         return lines
     for k in spec["inputs"]:
-        lines.append(f"in {k} {spec['defaults'].get(k, '-')}")
+        lines.append(f"in {k} {_scalar(spec['defaults'][k]) if k in spec['defaults'] else '-'}")
     for o in spec["outputs"]:
         lines.append(f"out {o} {spec['sym'][o]} {(case['colmap'] or {}).get(o, o)}")
     lines.append("iter " + " ".join(case["iter"]))
@@ -1526,7 +1573,7 @@ def model_input(case, impl=None):
     def setline(k, v):
         if k in looped or isinstance(v, list):
             return f"set {k} many " + " ".join(v)
-        return f"set {k} one {v}"
+        return f"set {k} one {_scalar(v)}"
 
     for k, v in case["init"].items():
         lines.append(setline(k, v))
